@@ -15,7 +15,7 @@ PROP_ORACLES = {
     'C05': ['tree.memory', 'tree.altroot', 'tree.overlay', 'tree.physical', 'union.overlay'],
     'C06': ['paths'],
     'C07': ['tree.altroot', 'composite.altroot', 'tree.physical', 'transfer'],
-    'C08': ['overlay'],
+    'C08': ['overlay', 'faults'],
     'C09': ['tree.overlay', 'union.overlay', 'overlay'],
     'C10': ['overlay', 'union.overlay'],
     'C11': ['composite.memory', 'composite.altroot', 'composite.physical', 'transfer', 'copydir'],
@@ -24,7 +24,7 @@ PROP_ORACLES = {
     'C14': ['reader', 'writer'],
     'C18': [],
     'C19': [],
-    'C20': ['composite.memory', 'transfer', 'copydir'],
+    'C20': ['faults', 'composite.memory', 'transfer', 'copydir'],
 }
 BOUNDS = {
     'paths': 'all join arguments over {/ . a é} up to length 5 (deep: 6) x 5 bases, plus parent/filename/extension/root of every result',
@@ -40,6 +40,7 @@ BOUNDS = {
     'union.overlay': 'OverlayFS over three layers with pre-populated lower layers (shadowed file, split directory) compared with ONE plain tree initialised to the union, all sequences of 2 (deep: 3) operations outside the input classes of the known findings',
     'overlay': 'all sequences of 1 (deep: 2) overlay operations (13 kinds x 5 paths) over 2 and 3 layers with pre-populated lower layers: lower layers unchanged, observers change nothing, bookkeeping hidden',
     'copydir': 'copy_dir / move_dir of 3 source trees (incl. names repeating the source directory name, empty and nested directories, binary and dot files) x same/other filesystem x existing destination: structure, bytes and returned count',
+    'faults': '11 scenarios (create_dir_all, remove_dir_all, copy/move_file, copy/move_dir, walk_dir, read_to_string, altroot, overlay with faulty upper / faulty lower layer) x every position k of a failing underlying call: never Ok with a partial or wrong effect, never a panic, lower layers untouched',
     'transfer': 'copy_file / move_file over 4 contents (empty, 1 byte, non-UTF-8, 9000 bytes) x same/other filesystem x altroot source x existing destination',
 }
 
